@@ -1,7 +1,7 @@
 """C08 — nodes carry exact locations and canonical, re-queryable normalized paths.
 
 Spaces: (a) every Unicode scalar value as a one-character member name (BMP + plane
-boundaries in quick, all in thorough), all names of length <= 3 over a 13-character
+boundaries in quick, all in thorough), all names of length <= 3 over a 17-character
 special alphabet, the empty name; (b) every node produced by every query of depth <= 2
 over the C01 segment alphabet (negative indices, reverse slices, descendants,
 duplicates) on every JSON tree with <= 4 (quick) / 5 (thorough) nodes, plus filter and
@@ -23,8 +23,8 @@ from mc.ref import paths as rpaths
 
 PROPERTY = "C08"
 RULE = (
-    "names: every scalar value as a 1-character member name, all names of length<=3 over 13 "
-    "special characters (quotes, backslash, slash, NUL, BS, VT, US, space, DEL, U+0080, non-BMP, a), "
+    "names: every scalar value as a 1-character member name, all names of length<=3 over 17 "
+    "special characters (quotes, backslash, slash, NUL, BS, VT, US, space, DEL, U+0080, non-BMP, a, t, n, u, LF), "
     "empty name; nodes: all nodes returned by all depth<=2 queries over the 26-segment alphabet on "
     "all JSON trees with <=4/5 nodes and by descendant/filter queries on special-name documents; "
     "each node: location walk + identity, path()==reference rendering, path in normalized-path "
@@ -32,7 +32,8 @@ RULE = (
     "non-trivial = node with a non-empty location"
 )
 ASSUMPTIONS = ["oracle = mc/ref/paths.py (RFC 9535 2.7 rendering) and the normalized-path ABNF via the generic engine"]
-SPECIAL = ["'", '"', "\\", "/", "\x00", "\x08", "\x0b", "\x1f", " ", "\x7f", "\x80", "\U0001F600", "a"]
+SPECIAL = ["'", '"', "\\", "/", "\x00", "\x08", "\x0b", "\x1f", " ", "\x7f", "\x80", "\U0001F600", "a",
+           "t", "n", "u", "\n"]
 
 
 def BOUNDS(tier):
